@@ -20,6 +20,14 @@ CFG = {
         "Leptos.Park.Memo.C19_memo_read_panic_witness",
         "Leptos.Park.Memo.C19_memo_stale_witness",
         "Leptos.Park.Memo.C19_memo_sequential_outcomes_full_false",
+        "Leptos.Park.Graph.C19_graph_abba_deadlock_witness",
+        "Leptos.Park.Graph.C19_graph_clear_releases_own_lock",
+        "Leptos.Park.Graph.C19_graph_check_sees_cross_thread_dirty",
+        "Leptos.Park.Notify.C19_notify_not_stuck",
+        "Leptos.Park.Notify.C19_notify_stuck_witness",
+        "Leptos.Park.AwaitW.C19_await_writer_lost_wake_witness",
+        "Leptos.Park.AwaitW.C19_await_writer_no_lost_wake_full_false",
+        "Leptos.Park.AwaitW.C19_await_writer_ready_partial",
         "Leptos.Park.Sig.C19_sig_read_during_write_witness",
         "Leptos.Park.Sig.C19_sig_read_total_full_false",
     ],
@@ -31,7 +39,10 @@ CFG = {
     "rule": "a case = one scenario + one interleaving (list of thread ids) replayed on real OS threads driven in lock-step through the "
             "yield points of hooks/yield_points.patch; EXHAUSTIVE over the instrumented segments for: await (ready/value/ref) 1 awaiter x producer "
             "(C(7,3)=35 each), await ready 2 awaiters x producer (4200), channel 1 sender (15 + 126) and 2 senders (420), memo get||get (924), "
-            "get||set, set;get||get (<=400 sampled in quick, all 1716 in thorough), get||hold;set;drop (<=400 / 3003), 5 signal read/write pairs; thorough adds "
+            "get||set, set;get||get (<=400 sampled in quick, all 1716 in thorough), get||hold;set;drop (<=400 / 3003), 5 signal read/write pairs, notify_subs||notify_subs (126) and update||await (3 x 10); "
+            "memo GRAPHS (diamond zero/plus1/sum of seed r2-3, coarse/base, chains, 2-level sums: Check arm with several sources, mark_dirty/mark_check propagation, "
+            "every reactivity lock acquisition a micro-step) under ~2000 seeded random schedules over 12 shapes x programs (20000 in thorough), gated at the memo:* points "
+            "incl. memo:cleared/memo:unlocked and at sources:clearing; 3-thread notify_subs (250 / 3000 random); thorough adds "
             "await value/ref with 2 awaiters (2 x 4200) and channel 2x2 notifies (34650); the rest are seeded random schedules over larger configurations "
             "(up to 3 awaiters / 3 senders / 2 memo threads with 1-3 ops) and a few free-running effect stress runs (testing only, watchdog); "
             "distinct = distinct op line; every case is non-trivial (tags = scenario family)",
@@ -47,11 +58,14 @@ CFG = {
         "AsyncDerivedReadyFuture/AsyncDerivedFuture/AsyncDerivedRefFuture::poll", "ArcAsyncDerived::set_inner_value/notify_subs",
         "channel::Sender::notify / Receiver::poll_next (+ task loop)", "MemoInner::update_if_necessary, ArcMemo::try_read_untracked, mark_dirty",
         "ArcRwSignal get/set/write guard (Plain::try_new = try_read)",
+        "memo graphs: needs_update Check arm, clear_sources/SourceSet::clear_sources, Track::track, inner_2, mark_dirty/mark_check/mark_subscribers_check with their locks",
+        "ArcAsyncDerived::notify_subs state save/restore (Notifying)", "AsyncDerived{,Ref}Future::poll (false, Pending) arm vs Write::try_write (blocking_write)",
     ],
     "assumptions": [
         "one step = the code between two yield points; interleavings inside a step (e.g. inside ArcRwSignal::set) are not enumerated — the free-running stress covers them only as testing",
         "memo/signal lock-step scenarios have two threads (with three, two threads blocked on one lock would race for it for real)",
-        "memo depends on one signal directly (no Check state); owner disposal and arena access (owner/arena.rs) across threads are not driven",
+        "graph scenarios: one signal, up to 5 memos, memo i reads only the signal and memos < i; deadlock-freedom of the repaired memo-graph lock order is shown by the "
+        "lock-order argument + replay, a general Lean proof over the frame machine is OPEN; owner disposal and arena access (owner/arena.rs) across threads are not driven",
     ],
     "manifest": {
         "category": "proof",
